@@ -50,10 +50,9 @@ func main() {
 	imp := importer.ForCompiler(fset, "source", nil)
 	ctx := build.Default
 	ctx.BuildTags = append(ctx.BuildTags, "verif")
+	expFiles := map[string]string{"bandersnatch/fr": "fr.go", "bandersnatch/fp": "fp.go", "bandersnatch": "bandersnatch.go",
+		"banderwagon": "banderwagon.go", "ipa": "ipa.go", ".": "root.go", "common": "common.go", "common/parallel": "parallel.go"}
 	for _, rel := range pkgDirs {
-		if !*doRewrite {
-			break
-		}
 		dir := filepath.Join(*repo, rel)
 		ents, err := os.ReadDir(dir)
 		if err != nil {
@@ -78,11 +77,41 @@ func main() {
 			names = append(names, filepath.Join(dir, n))
 		}
 		info := &types.Info{Types: map[ast.Expr]types.TypeAndValue{}, Uses: map[*ast.Ident]types.Object{}, Defs: map[*ast.Ident]types.Object{}}
-		conf := types.Config{Importer: imp, Error: func(err error) { fmt.Fprintln(os.Stderr, "typecheck:", err) }}
-		if _, err := conf.Check(modPath+"/"+rel, fset, files, info); err != nil {
-			panic(err)
+		// the export file of this package is type-checked together with it: a wrapper that no longer fits the
+		// (possibly edited) package is replaced by a stub, so that an edit never breaks the build of the checks
+		var expFile *ast.File
+		expName := ""
+		if *exports != "" && expFiles[rel] != "" {
+			expName = filepath.Join(*exports, expFiles[rel])
+			if ef, err := parser.ParseFile(fset, expName, nil, parser.ParseComments); err == nil {
+				expFile = ef
+			}
+		}
+		var expErrs []types.Error
+		pkgErr := false
+		conf := types.Config{Importer: imp, Error: func(err error) {
+			if te, ok := err.(types.Error); ok && expFile != nil && fset.Position(te.Pos).Filename == expName {
+				expErrs = append(expErrs, te)
+				return
+			}
+			pkgErr = true
+			fmt.Fprintln(os.Stderr, "typecheck:", err)
+		}}
+		all := files
+		if expFile != nil {
+			all = append(append([]*ast.File(nil), files...), expFile)
+		}
+		pkg, _ := conf.Check(modPath+"/"+rel, fset, all, info)
+		if pkgErr {
+			panic("package " + rel + " does not type-check")
+		}
+		if expFile != nil {
+			writeExport(fset, expFile, expErrs, pkg, *out, filepath.Join(dir, "zz_verif_export.go"), overlay)
 		}
 		for i, f := range files {
+			if !*doRewrite {
+				break
+			}
 			rw := &rewriter{fset: fset, info: info, file: f}
 			if rw.rewrite() {
 				var buf bytes.Buffer
@@ -111,16 +140,6 @@ func main() {
 		flagFile := filepath.Join(*out, "zz_flag.go")
 		os.WriteFile(flagFile, []byte("package vsched\n\nfunc init() { Instrumented = true }\n"), 0o644)
 		overlay[filepath.Join(*repo, "zzverif", "vsched", "zz_flag.go")] = flagFile
-	}
-	if *exports != "" {
-		exp := map[string]string{"fr.go": "bandersnatch/fr", "fp.go": "bandersnatch/fp", "bandersnatch.go": "bandersnatch",
-			"banderwagon.go": "banderwagon", "ipa.go": "ipa", "root.go": ".", "common.go": "common", "parallel.go": "common/parallel"}
-		for f, rel := range exp {
-			src := filepath.Join(*exports, f)
-			if _, err := os.Stat(src); err == nil {
-				overlay[filepath.Join(*repo, rel, "zz_verif_export.go")] = src
-			}
-		}
 	}
 	if *exports != "" {
 		fl := filepath.Join(*out, "zz_verif_flavour.go")
@@ -415,4 +434,65 @@ func (r *rewriter) rewrite() bool {
 		}
 	}
 	return r.need
+}
+
+// writeExport prints the export file of one package: functions with type errors become stubs that panic
+// with a recognisable message, and VerifGlobals is regenerated from the package scope (every package-level
+// variable except pools and function values).
+func writeExport(fset *token.FileSet, f *ast.File, errs []types.Error, pkg *types.Package, outDir, target string, overlay map[string]string) {
+	bad := map[*ast.FuncDecl]bool{}
+	for _, e := range errs {
+		hit := false
+		for _, d := range f.Decls {
+			if fd, ok := d.(*ast.FuncDecl); ok && fd.Pos() <= e.Pos && e.Pos <= fd.End() {
+				bad[fd] = true
+				hit = true
+			}
+		}
+		if !hit {
+			fmt.Fprintln(os.Stderr, "export file error outside a function:", e)
+		}
+	}
+	for _, d := range f.Decls {
+		fd, ok := d.(*ast.FuncDecl)
+		if !ok {
+			continue
+		}
+		if bad[fd] {
+			fmt.Println("export stubbed:", pkg.Path(), fd.Name.Name)
+			fd.Body = &ast.BlockStmt{List: []ast.Stmt{&ast.ExprStmt{X: &ast.CallExpr{Fun: ast.NewIdent("panic"),
+				Args: []ast.Expr{&ast.BasicLit{Kind: token.STRING, Value: fmt.Sprintf("%q", "verif: seam unavailable: "+fd.Name.Name)}}}}}}
+			continue
+		}
+		if fd.Name.Name == "VerifGlobals" && pkg != nil {
+			var elts []ast.Expr
+			names := pkg.Scope().Names()
+			sort.Strings(names)
+			for _, n := range names {
+				v, ok := pkg.Scope().Lookup(n).(*types.Var)
+				if !ok || n == "_" || strings.HasPrefix(n, "Verif") {
+					continue
+				}
+				ts := v.Type().String()
+				if strings.Contains(ts, "sync.Pool") || strings.Contains(ts, "vsched.Pool") {
+					continue
+				}
+				if _, isFunc := v.Type().Underlying().(*types.Signature); isFunc {
+					continue
+				}
+				elts = append(elts, &ast.UnaryExpr{Op: token.AND, X: ast.NewIdent(n)})
+			}
+			fd.Body = &ast.BlockStmt{List: []ast.Stmt{&ast.ReturnStmt{Results: []ast.Expr{&ast.CompositeLit{
+				Type: &ast.ArrayType{Elt: &ast.InterfaceType{Methods: &ast.FieldList{}}}, Elts: elts}}}}}
+		}
+	}
+	var buf bytes.Buffer
+	if err := printer.Fprint(&buf, fset, f); err != nil {
+		panic(err)
+	}
+	dst := filepath.Join(outDir, "export__"+strings.ReplaceAll(strings.TrimPrefix(pkg.Path(), modPath), "/", "_")+".go")
+	if err := os.WriteFile(dst, buf.Bytes(), 0o644); err != nil {
+		panic(err)
+	}
+	overlay[target] = dst
 }
